@@ -405,6 +405,26 @@ func c16Cfg(c c16Conf, leak string, emit string) string {
 func runC16(tier, replay string) {
 	run := ev.Start("C16", tier, "model_checking")
 	if replay != "" {
+		var bt struct {
+			Trace []blockEv `json:"block_trace"`
+		}
+		if loadReplay(replay, &bt) == nil && len(bt.Trace) > 0 {
+			// a rejected window of a recorded trace: validate it again from its first reset / open
+			evs := bt.Trace
+			for i, e := range evs {
+				if e.Ev == "reset" {
+					evs = evs[i:]
+				}
+			}
+			if bad, _, _ := blockValidate(run, evs); bad >= 0 {
+				run.Fail(fmt.Sprintf("block-trace-rejected/%s/%s", evs[bad].Ev, strings.TrimPrefix(evs[bad].Kind, "*gogen.")), fmt.Sprintf("event %d: %+v", bad, evs[bad]), bt)
+			}
+			run.Eval("replay")
+			run.Set("states", 1)
+			run.Set("transitions", 1)
+			run.Set("traces_validated_against_impl", 1)
+			run.Finish()
+		}
 		var h []bStep
 		if err := loadReplay(replay, &h); err != nil {
 			run.Infra(err)
@@ -532,6 +552,10 @@ func runC16(tier, replay string) {
 	if states == 0 { // simulation reports no distinct-state count
 		states = replays
 	}
+	// the other direction: recorded executions of the repository's own tests against the frame discipline
+	st2, tr2, nev := blocksTrace(run, tier)
+	states, transitions = states+st2, transitions+tr2
+	run.Set("recorded_block_events_validated_by_tlc", nev)
 	run.Set("states", states)
 	run.Set("transitions", transitions)
 	run.Set("traces_validated_against_impl", replays)
